@@ -9,6 +9,9 @@ rm -rf "$SEEDED_SRC"; mkdir -p "$SEEDED_SRC"
 rsync -a --exclude bin --exclude evidence --exclude replay --exclude seeded --exclude .git /verif/ "$SEEDED_SRC/"
 trap 'rm -rf "$SEEDED_SRC"' EXIT
 LIST=$(for d in seeded/*/*/; do m=${d#seeded/}; m=${m%/}; [ -f "$d/patch.diff" ] || continue; echo "$m" | grep -qE "$FILTER" || continue;
-  cs=$(ls $d/result.*.quick.txt 2>/dev/null | sed -E 's/.*result\.(C[0-9]+)\.quick\.txt/\1/' | tr '\n' ' '); [ -n "$cs" ] || cs="${m%%/*}"; echo "$m|$cs"; done)
-echo "$LIST" | xargs -P 2 -I{} bash -c 'x="{}"; m="${x%%|*}"; cs="${x#*|}"; tools/seeded.sh "$m" "$cs" quick 1 >/dev/null 2>&1; echo "done $m: $(for c in $cs; do head -1 seeded/$m/result.$c.quick.txt | cut -d" " -f1,4,5; done | tr "\n" " ")"'
+  own="${m%%/*}"; [ "$own" = hand ] && own=""
+  # the property's own check plus every other check that caught the change last time
+  cs=$(for f in $d/result.*.quick.txt; do [ -f "$f" ] || continue; c=$(echo "$f" | sed -E 's/.*result\.(C[0-9]+)\.quick\.txt/\1/'); if [ "$c" = "$own" ] || head -1 "$f" | grep -q "exit=1"; then echo "$c"; fi; done | tr '\n' ' ')
+  [ -n "$cs" ] || cs="$own"; echo "$m|$cs"; done)
+echo "$LIST" | xargs -P ${SEEDED_PAR:-3} -I{} bash -c 'x="{}"; m="${x%%|*}"; cs="${x#*|}"; tools/seeded.sh "$m" "$cs" quick 1 >/dev/null 2>&1; echo "done $m: $(for c in $cs; do head -1 seeded/$m/result.$c.quick.txt | cut -d" " -f1,4,5; done | tr "\n" " ")"'
 python3 tools/seeded_results.py
